@@ -21,8 +21,19 @@ LibC(m) == <<Fn("f", m), Var("g", m)>>
 \* a library module that lists what it exports: g is public by name but not in __all__
 LibAll(m) == <<Fn("f", m), Cls("g", m), All(<<"f">>)>>
 
+\* a world of C07: TLC writes the modules `opn`; the modules `tidy` are tidied
 World(name, body, pkgs, opn, tidy) ==
-  [name |-> name, body |-> body, pkgs |-> pkgs, open |-> opn, tidy |-> tidy]
+  [name |-> name, body |-> body, pkgs |-> pkgs, open |-> opn, tidy |-> tidy,
+   mid |-> [p \in DOMAIN body |-> p],
+   msrc |-> {}, mdst |-> {}, reloc |-> {}, newnames |-> {}, topkg |-> {}]
+
+\* a world of C05: definitions of `msrc` modules may move to `mdst` modules; `reloc` modules
+\* may be moved into any package or renamed to one of `newnames`; `topkg` modules may become
+\* packages
+MWorld(name, body, pkgs, opn, msrc, mdst, reloc, newnames, topkg) ==
+  [name |-> name, body |-> body, pkgs |-> pkgs, open |-> opn, tidy |-> {},
+   mid |-> [p \in DOMAIN body |-> p],
+   msrc |-> msrc, mdst |-> mdst, reloc |-> reloc, newnames |-> newnames, topkg |-> topkg]
 
 \* flat: module a is written by TLC and tidied; b and c are libraries
 WFlat == World("flat", (A :> <<>>) @@ (B :> LibB(B)) @@ (C :> LibC(C)), {}, <<A>>, {A})
@@ -77,28 +88,112 @@ WDeepIn ==
         {P, PQ}, <<<<"p", "q", "a">>>>, {<<"p", "q", "a">>})
 
 MCWorlds == {WFlat}
+
+\* ---- worlds of C05 -------------------------------------------------------
+S == <<"s">>
+T == <<"t">>
+FnR(n, m, refs) == DefR(n, "fn", Append(m, n), refs)
+ClsR(n, m, refs) == DefR(n, "cls", Append(m, n), refs)
+
+\* source module s: f needs an imported name and a dotted module reference, h needs k
+\* (defined next to it), k and v need nothing; a is the client TLC writes
+SrcBody ==
+  <<Import(<<ImpItem(C, "")>>), From(0, B, <<FromItem("g", "")>>),
+    Fn("k", S), FnR("f", S, <<<<"g">>, <<"c", "f">>>>), ClsR("h", S, <<<<"k">>>>), Var("v", S)>>
+
+WMove ==
+  MWorld("move",
+         (A :> <<>>) @@ (S :> SrcBody) @@ (T :> <<>>) @@ (B :> LibB(B)) @@ (C :> LibC(C)),
+         {}, <<A>>, {S}, {T}, {}, {}, {})
+
+\* the source uses what moves; the destination already has an import and a definition
+WMoveBusy ==
+  MWorld("movebusy",
+         (A :> <<>>) @@ (S :> SrcBody \o <<Use(<<"f">>, FALSE), Use(<<"h">>, TRUE)>>)
+           @@ (T :> <<Import(<<ImpItem(C, "")>>), Fn("w", T)>>) @@ (B :> LibB(B)) @@ (C :> LibC(C)),
+         {}, <<A>>, {S}, {T}, {}, {}, {})
+
+\* source and destination inside a package; the client outside or inside
+WMovePkg ==
+  MWorld("movepkg",
+         (A :> <<>>) @@ (P :> <<>>) @@ (<<"p", "s">> :> <<From(1, <<"b">>, <<FromItem("g", "")>>),
+                                                          FnR("f", <<"p", "s">>, <<<<"g">>>>),
+                                                          Fn("k", <<"p", "s">>)>>)
+           @@ (<<"p", "t">> :> <<>>) @@ (PB :> LibB(PB)) @@ (T :> <<>>),
+         {P}, <<A>>, {<<"p", "s">>}, {<<"p", "t">>, T}, {}, {}, {})
+
+WMovePkgIn ==
+  MWorld("movepkgin",
+         (<<"p", "a">> :> <<>>) @@ (P :> <<>>) @@ (<<"p", "s">> :> <<From(1, <<"b">>, <<FromItem("g", "")>>),
+                                                          FnR("f", <<"p", "s">>, <<<<"g">>>>),
+                                                          Fn("k", <<"p", "s">>)>>)
+           @@ (<<"p", "t">> :> <<>>) @@ (PB :> LibB(PB)) @@ (T :> <<>>),
+         {P}, <<<<"p", "a">>>>, {<<"p", "s">>}, {<<"p", "t">>, T}, {}, {}, {})
+
+WorldsMove == {WMove, WMoveBusy}
+WorldsMovePkg == {WMovePkg, WMovePkgIn}
+
+\* modules to relocate: p.b (library), p.c (imports its sibling relatively), d (top level),
+\* package q is a possible destination; a is the client TLC writes
+Q == <<"q">>
+RelocBodies(client) ==
+  (client :> <<>>) @@ (P :> <<>>) @@ (Q :> <<>>) @@ (PB :> LibB(PB))
+    @@ (PC :> <<From(1, <<"b">>, <<FromItem("g", "")>>), From(1, <<>>, <<FromItem("b", "")>>),
+               FnR("f", PC, <<<<"g">>, <<"b", "f">>>>), Use(<<"f">>, FALSE)>>)
+    @@ (D :> <<Fn("f", D), Var("g", D)>>)
+
+WReloc ==
+  MWorld("reloc", RelocBodies(A), {P, Q}, <<A>>, {}, {}, {PB, PC, D, P}, {"e"}, {D, PC})
+WRelocIn ==
+  MWorld("relocin", RelocBodies(<<"p", "a">>), {P, Q}, <<<<"p", "a">>>>, {}, {}, {PB, PC, D, P, <<"p", "a">>},
+         {"e"}, {<<"p", "a">>})
+\* the package __init__ re-exports from its submodule
+WRelocInit ==
+  MWorld("relocinit",
+         (A :> <<>>) @@ (P :> <<From(1, <<"b">>, <<FromItem("f", "")>>), From(1, <<>>, <<FromItem("c", "")>>)>>)
+           @@ (Q :> <<>>) @@ (PB :> LibB(PB)) @@ (PC :> LibC(PC)),
+         {P, Q}, <<A>>, {}, {}, {PB, PC, P}, {"e"}, {PC})
+
+WorldsReloc == {WReloc, WRelocIn}
+WorldsRelocInit == {WRelocInit}
+WorldsRelIn == {WMovePkgIn, WRelocIn}
+
 WorldsFlat == {WFlat, WFlatAll}
 WorldsReexp == {WReexp, WReexpAttr}
 WorldsPkg == {WPkg}
 WorldsInit == {WInit, WInit0}
 WorldsDeep == {WDeep, WDeepIn}
+WorldsPkgDeep == {WPkg, WDeep}
+WorldsPkgDeepIn == {WPkg, WDeep, WDeepIn}
 
 \* alphabetical order of the names as rendered by bind/_pymodules.py
 MCRank ==
   ("*" :> 0) @@ ("_h" :> 1) @@ ("x" :> 2) @@ ("y" :> 3) @@ ("f" :> 4) @@ ("k" :> 5)
-  @@ ("a" :> 6) @@ ("b" :> 7) @@ ("c" :> 8) @@ ("d" :> 9) @@ ("e" :> 10)
-  @@ ("g" :> 11) @@ ("h" :> 12) @@ ("p" :> 13) @@ ("q" :> 14) @@ ("r" :> 15)
+  @@ ("a" :> 6) @@ ("b" :> 7) @@ ("c" :> 8) @@ ("d" :> 9) @@ ("e" :> 10) @@ ("s" :> 11) @@ ("t" :> 12)
+  @@ ("g" :> 13) @@ ("h" :> 14) @@ ("p" :> 15) @@ ("q" :> 16) @@ ("r" :> 17) @@ ("v" :> 18) @@ ("w" :> 19)
 
 AllPrefs == [split : BOOLEAN, top : BOOLEAN, alpha : BOOLEAN]
 DefaultPrefs == {[split |-> FALSE, top |-> TRUE, alpha |-> FALSE]}
 
 \* ---- behaviour export: one line per complete program ----------------------
 BodyPairs(w) == { [m |-> m, body |-> w.body[m], pkg |-> m \in w.pkgs] : m \in Mods(w) }
-ObsPairs == { [m |-> m, out |-> info.obs[m].out, err |-> info.obs[m].err] : m \in Mods(W) }
+ObsPairs == { [m |-> q[1], out |-> q[2].out, err |-> q[2].err] : q \in info.obs }
 ExportPairs == { [m |-> m, names |-> info.exports[m]] : m \in Mods(W) }
 BindingPairs == { [m |-> m, stmts |-> info.bindings[m]] : m \in Range(W.open) }
+\* where every module is after request a, and what the moved definition must say of itself
+LayoutAfter(w, a) ==
+  LET np(p) == IF a.name \in {"MoveModule", "RenameModule"} THEN NewPath(a.m, a.new, p) ELSE p
+      pk(p) == p \in w.pkgs \/ (a.name = "ToPackage" /\ p = a.m)
+  IN { [mid |-> w.mid[p], path |-> np(p), pkg |-> pk(p)] : p \in Mods(w) }
+Probe(w, a) ==
+  IF a.name = "MoveGlobal"
+  THEN LET id == w.body[a.m][a.i].id
+       IN <<[m |-> a.dest, n |-> a.n, id |-> id, subs |-> MovedIdent(w, a.m, id)[2]]>>
+  ELSE <<>>
+RequestPairs == { [act |-> a, layout |-> LayoutAfter(W, a), probe |-> Probe(W, a)] : a \in Requests(W) }
 Program ==
   [world |-> W.name, mods |-> BodyPairs(W), obs |-> ObsPairs, exports |-> ExportPairs,
-   bindings |-> BindingPairs, tags |-> info.tags, tidy |-> W.tidy, open |-> W.open]
+   bindings |-> BindingPairs, tags |-> info.tags, tidy |-> W.tidy, open |-> W.open,
+   requests |-> RequestPairs]
 Export == phase = "built" => PrintT(<<"BEH", ToJson(Program)>>)
 =============================================================================
